@@ -62,6 +62,8 @@ def build_struct(shape, ids, rng):
     idx = ids.pop()
     kids = [build_struct(k, ids, rng) for k in shape]
     v = rng.choice([rng.randint(-999, 999) / 8.0, rng.randint(0, 10 ** 6) / 4.0, 0.0, -0.0005, 1e7 + 0.5])
+    if rng.random() < 0.06:
+        v = rng.choice([float('inf'), float('-inf')])     # saturated / blanked-to-minus-infinity peaks: written as inf / -inf
     s = Structure((rng.randint(0, 50),), v, children=kids, idx=idx) if kids else Structure((rng.randint(0, 50),), v, idx=idx)
     return s
 
